@@ -151,6 +151,8 @@ def main():
     ap.add_argument("--modules", default=",".join(MODULES))
     ap.add_argument("--out", default="/tmp/mutation_map.json")
     ap.add_argument("--kinds", default="del,true,false,reraise")
+    ap.add_argument("--fn", default="", help="only functions whose qualified name contains one of these comma-separated substrings")
+    ap.add_argument("--show", action="store_true", help="print every mutant with the checks that noticed it")
     a = ap.parse_args()
     kinds = set(a.kinds.split(","))
     jobs = []
@@ -160,7 +162,7 @@ def main():
             continue
         tree = ast.parse(open(p).read())
         for kind, path, fn, lineno in sites(tree):
-            if kind in kinds:
+            if kind in kinds and (not a.fn or any(x in fn for x in a.fn.split(","))):
                 jobs.append((rel, kind, path, fn, lineno))
     print("mutants:", len(jobs), file=sys.stderr)
     t0 = time.time()
@@ -177,6 +179,9 @@ def main():
     out = [{"file": r[0], "kind": r[1], "fn": r[2], "line": r[3], "edit": r[4], "fired": r[5]} for r in res]
     json.dump(out, open(a.out, "w"), indent=0)
     surv = [o for o in out if not o["fired"]]
+    if a.show:
+        for o in out:
+            print("%-4s %-40s %4d %-60s => %s" % (o["kind"], o["fn"][-40:], o["line"], o["edit"][:60], sorted(o["fired"]) or "SURVIVES"))
     print("mutants %d, noticed %d, survivors %d, %.0fs" % (len(out), len(out) - len(surv), len(surv), time.time() - t0))
 
 
